@@ -8,7 +8,7 @@ titles = {p["id"]: p["title"] for p in props}
 # id -> (technique, level text, level note, design ref)
 CLAIMED = {
  "C01": ("runtime post-condition monitor on to_code_data + strict bit-exact code-object comparison over compiled corpora on real 3.7-3.10 interpreters",
-         "Every code object reached by the workloads (repo examples, interpreter stdlib, generated programs, boundary templates; compile modes and optimisation levels) is decoded and re-encoded by the real library under a monitor that compares every co_* attribute type- and bit-exactly. Held means: no difference on the code objects observed; nothing is claimed for programs outside the workloads.",
+         "Every code object reached by the workloads (repo examples, interpreter stdlib, generated programs incl. closure nests, the same programs re-lined through the AST, boundary templates, eval/single fragments, twin sequences decoded one after the other in one process, odd file names; compile modes and optimisation levels) is decoded and re-encoded by the real library under a monitor that compares every co_* attribute type- and bit-exactly. Held means: no difference on the code objects observed; nothing is claimed for programs outside the workloads.",
          "Trusts CPython's compile() and attribute readers of the four interpreters; the harness-side typing_extensions shim; corpus sampling is seeded.", "5/C01"),
  "C02": ("runtime post-condition monitor on every to_code_data call, compared with CPython's own readers (dis.get_instructions, PyCode_Addr2Line, co_lines)",
          "Every decoded code object at every nesting level is compared instruction by instruction with the same interpreter's disassembler (opname, operand class and value, jump kind and target block) and line reader. The encoder is never involved, so a shared encoder/decoder error cannot hide. Held = no disagreement on the instructions observed.",
@@ -35,14 +35,14 @@ CLAIMED = {
          "All pairs within buckets: symmetry, != consistency, a==b => hash equal, set/dict lookup, transitivity over the CPython-distinct families, Constant equality == CPython's constant partition with NaNs identified, equal CodeData => identical to_code(), identical code => equal decoded data, frozen-ness probes (setattr/delattr/new attribute must raise; only immutable containers reachable).",
          "Reference partition for NaN-containing values is an own structural comparison (the exception stated by the property); pair buckets are bounded.", "5/C08"),
  "C10": ("wrappers on to_line_mapping / from_line_mapping + driver over model-emitted tables (ports of CPython's assemblers incl. the peephole lnotab fix-up) and every table in compiled code; reference for decoding = PyCode_Addr2Line / co_lines",
-         "Decode direction: every code-unit offset of every table is compared with CPython's own reader (valid for any byte table). Encode direction: byte equality of from_line_mapping(to_line_mapping(c)) for compiler-emitted tables (W1-W4) and model-emitted tables (deltas around 127/128/254/255/multiples, gaps, zero-width entries, mixed signs, no-line runs of 1..512 units); model fidelity is measured on each run by regenerating the real tables. Model tables also go through the whole from_code -> to_code pipeline on 1-unit NOP bytecode.",
+         "Decode direction: every code-unit offset of every table is compared with CPython's own reader (valid for any byte table). Encode direction: byte equality of from_line_mapping(to_line_mapping(c)) for compiler-emitted tables (W1-W4) and model-emitted tables (deltas around 127/128/254/255/multiples, gaps, zero-width entries, mixed signs, no-line runs of 1..512 units); model fidelity is measured on each run by regenerating the real tables. Model tables also go through the whole from_code -> to_code pipeline on 1-unit NOP bytecode. Compiler-emitted hostile tables come from generated programs re-lined through the AST and, on 3.10, from the AST recipe that makes the real assembler emit no-line runs longer than one entry.",
          "Assembler models are generators only; a model-emitted failure is labelled as such in the witness.", "5/C10"),
  "C11": ("runtime post-condition monitors on to_flags_data (all subsets of the 18 CPython-defined flags; unknown bits alone, mixed, and after IntFlag materialisation) and on to_code_data for hand-altered headers",
          "Flag words: every subset of the interpreter's 18 named flags is pushed through to_flags_data under a monitor requiring exact re-encoding and no exception (exhaustive on every interpreter in the thorough tier; in the quick tier exhaustive on 3.9/3.10 and every 8th subset on 3.7/3.8 where enum._decompose is quadratic); words with an unknown bit must raise or re-encode exactly. Headers: ~40 base code objects x (each of 32 flag bits toggled, flag pairs, argument counts and nlocals +-1/+2): from_code must raise or return data whose to_code() reproduces every header field.",
          "Known flags are taken from dis.COMPILER_FLAG_NAMES and __future__ of the running interpreter, not from the library's enum; headers CPython refuses to construct are skipped.", "5/C11"),
  "C12": ("pre/post snapshot monitors on the five API methods + history driver that repeats and interleaves calls on shared arguments and clobbers returned/consumed JSON documents in place",
          "Every monitored call compares a deep type-exact snapshot of its argument before and after; the driver applies shuffled histories over {decode, encode, normalize, to_json, from_json on the same parsed document, encode/to_json of the normal form}, compares the 1st with the n-th result, mutates every list/dict of returned and of consumed documents and re-fingerprints the CodeData.",
-         "Code objects are immutable from Python and only snapshotted at depth 0.", "5/C12"),
+         "Code objects are immutable from Python and only snapshotted at depth 0. Argument snapshots are type-exact structural fingerprints (a list replaced by a tuple is seen). A JSON-only consumer phase repeats the histories on 3.11-3.13 (hosts that cannot build the code objects) over the producers' documents.", "5/C12"),
  "C13": ("runtime post-condition monitor on every to_code_data call; jump-target set recomputed from dis only",
          "For every decoded code object: no empty block, concatenation equals the dis instruction sequence, jump targets in range, block start offsets == {0} + jump targets (exact set equality), every later block targeted by a decoded jump.",
          "Trusts dis for jump targets.", "5/C13"),
@@ -53,7 +53,7 @@ CLAIMED = {
          "Every recorded document is consumed under all seven interpreters, including 3.11-3.13 hosts that cannot build the code object: from_json_data and hash() must succeed, to_json_data must reproduce the recorded document and normalize().to_json_data() must equal the producer's own normal form (frozenset element order normalised).",
          "Consumers 3.11+ exercise only the JSON half of the API; documents come from decoded W1/W3/W4/W9 data.", "5/C15"),
  "C16": ("offline parse of the real CLI's stdout and exit status (one subprocess per invocation under each of 3.7-3.10, plain-print fallback) compared with the in-process API result for the same program",
-         "Invocation matrix: the 0-source and every 2/3/4-source combination (incl. falsy-but-present sources) must exit 2 with empty stdout; every single source (file, -c, -e, -m; incl. the empty program) x seeded subsets of {--json, --no-normalize, --dis, --dis-after, --source} must exit 0, print repr(api result) (normalized unless --no-normalize), a JSON document that loads back to it, the program text, dis of the compiled program, dis of api_result.to_code(), and --dis-after must show the same instructions as --dis for every code object present in both.",
+         "Invocation matrix: the 0-source and every 2/3/4-source combination (incl. falsy-but-present sources) must exit 2 with empty stdout; every single source (file, -c, -e, -m; incl. the empty program) x seeded subsets of {--json, --no-normalize, --dis, --dis-after, --source} must exit 0, print repr(api result) (normalized unless --no-normalize), a JSON document that loads back to it, the program text, dis of the compiled program, dis of api_result.to_code(), and --dis-after must show the same instructions as --dis for every code object present in both. Programs include text-level hazards (whitespace-only lines in strings, tabs, continuation lines, non-ASCII) through -c / file / -e and program files given as raw bytes (UTF-8 BOM, PEP 263 cookies, CRLF/CR line ends).",
          "Textual comparison under the same PYTHONHASHSEED; eval() of the printed line only excuses; unparseable output is inconclusive.", "5/C16"),
 }
 checks = []
